@@ -27,6 +27,9 @@ func Sanitize(query string) string {
 
 	var buf strings.Builder
 	last, state := 0, idle
+	// operand is true where the next token starts an operand: there a slash opens a
+	// regex literal (whose text may contain quotes), elsewhere it is a division.
+	operand, cast := true, false
 	redact := func(i, j int) {
 		buf.WriteString(query[last:i])
 		buf.WriteString("[REDACTED]")
@@ -70,6 +73,12 @@ func Sanitize(query string) string {
 				state = idle
 			}
 			i = j
+			operand, cast = false, false
+		case c == '/' && operand && regexEnd(query, i) > 0:
+			// A regex literal: nothing inside it starts or ends a clause.
+			i = regexEnd(query, i)
+			state = idle
+			operand, cast = false, false
 		case isIdentChar(rune(c)) || c >= 0x80:
 			j := i
 			for j < len(query) && (isIdentChar(rune(query[j])) || query[j] >= 0x80) {
@@ -100,11 +109,17 @@ func Sanitize(query string) string {
 				state = idle
 			}
 			i = j
+			// A keyword is followed by an operand; a name, a number, true, false or the type after "::" ends one.
+			tok := Lookup(word)
+			operand, cast = !cast && tok != IDENT && tok != TRUE && tok != FALSE, false
 		case c == '=' && state == seenUser:
 			state = wantsPassword
 			i++
+			operand, cast = true, false
 		default:
 			state = idle
+			cast = c == ':' && i > 0 && query[i-1] == ':'
+			operand = c != ')'
 			i++
 		}
 	}
@@ -114,4 +129,19 @@ func Sanitize(query string) string {
 	}
 	buf.WriteString(query[last:])
 	return buf.String()
+}
+
+// regexEnd returns the index just past the regex literal that starts with the
+// slash at query[i], or 0 if the slash does not start one (no closing slash on
+// the same line).
+func regexEnd(query string, i int) int {
+	for j := i + 1; j < len(query) && query[j] != '\n' && query[j] != '\r'; j++ {
+		switch query[j] {
+		case '\\':
+			j++
+		case '/':
+			return j + 1
+		}
+	}
+	return 0
 }
